@@ -178,6 +178,59 @@ def r8_engineio_ordered(ctx):
                   f, bad.node if bad else None))
 
 
+def r10_task_kept(ctx):
+    """asyncio: the event loop keeps only a weak reference to a task.  The
+    handler task started for an event (async_handlers) is stored in a
+    container under the task itself (set element, or a key built from the
+    task) until it is done; stored under any other key, a second event with
+    the same key drops the only strong reference and the first handler can be
+    collected mid-way: its ACK is never sent."""
+    m = ctx.model
+    f = m.method('AsyncServer', '_handle_event')
+    construct = 'AsyncServer._handle_event'
+    run = run_function(f, m)
+    n = 0
+    for p in run.paths:
+        for e in p.events:
+            if not (e.kind == 'call' and
+                    e.callee() == 'start_background_task'):
+                continue
+            n += 1
+            # the symbol holding the task
+            tsym = None
+            for name, d in run.symdefs.items():
+                if d['kind'] == 'assign' and d.get('node') is not None and \
+                        isinstance(d['expr'], ast.Call) and \
+                        U(d['expr']) == U(e.expr):
+                    tsym = name
+            kept = None
+            for x in p.events[e.idx + 1:]:
+                if x.kind == 'call' and x.callee() == 'add' and tsym and \
+                        x.expr.args and U(x.expr.args[0]) == tsym:
+                    kept = ('element', x)
+                if x.kind == 'store' and isinstance(x.expr, ast.Subscript) \
+                        and tsym and U(x.extra) == tsym:
+                    key_has_task = any(
+                        isinstance(y, ast.Name) and y.id == tsym
+                        for y in ast.walk(x.expr.slice))
+                    kept = ('key', x) if key_has_task else ('foreign', x)
+            ctx.check(kept is not None and kept[0] != 'foreign', construct,
+                      'the handler task is kept strongly referenced under '
+                      'itself until done', key='task-reference',
+                      reason='the handler task is %s: %s' % (
+                          'not stored anywhere' if kept is None else
+                          'stored under the key %s, which is not unique to '
+                          'the task' % (run.pretty(kept[1].expr.slice)
+                                        if kept[0] == 'foreign' else ''),
+                          'only the event loop\'s weak reference (or a '
+                          'slot the next event with the same key '
+                          'overwrites) keeps the handler alive; once '
+                          'collected it never sends its ACK'),
+                      where=where(f, (kept[1] if kept else e).node))
+    if not n:
+        ctx.info('AsyncServer._handle_event starts no background task')
+
+
 ADMISSION_TABLES = {'rooms', 'pending_disconnect'}
 
 
@@ -217,6 +270,9 @@ def r9_one_admission_table(ctx):
 
 
 def run(ctx):
+    ctx.rule('C05.R10', 'asyncio: a started handler task stays strongly '
+             'referenced under itself', floor=1)
+    r10_task_kept(ctx)
     ctx.rule('C05.R9', 'gate and sid resolvers read one admission table',
              floor=3)
     r9_one_admission_table(ctx)
